@@ -49,6 +49,7 @@ LEVEL = {
 LEVEL["decided"] += " (R10.7) the descriptor decides 'looked up on the class' by `instance is None` only."
 LEVEL["decided"] += ' R10.3 is path-based: every path through cache_clear resets hits, misses and the store together.'
 LEVEL["decided"] += ' (R10.8) hit or miss is decided by the presence of the key, never by comparing a looked-up value with None / a constant.'
+LEVEL["decided"] += ' (R10.9) __call__ and cache_discard of every wrapper (bound wrapper included) take nothing but self, positional-only, besides *args / **kwargs: every argument pattern of the function is accepted, also a keyword named self.'
 
 
 def run(ctx) -> None:
